@@ -158,8 +158,8 @@ def token_strings(n):
     for k in range(0, n + 1):
         for combo in itertools.product(TOKENS, repeat=k):
             yield "".join(combo)
-            if k >= 2:
-                yield " ".join(combo)
+            if 2 <= k <= 3:
+                yield " ".join(combo)  # strings of 4 tokens (thorough tier): without blanks only
 
 
 def mutations(seed):
